@@ -10,6 +10,7 @@ UNIT = dict(
     fns={
         "execute_with_hedging": dict(rules=[
             ("sub", "R9-paths", r"use tokio::sync::mpsc;", "", 1),
+            ("sub", "R9-paths", r"use tower::ServiceExt;", "", -1),
             ("sub", "R9-paths", r"mpsc::channel::<\(usize, Result<S::Response, S::Error>\)>\(([^()]*)\)", r"channel(\1, Tracked(tr))", 1),
             ("inject", r"let \(tx, mut rx\) = channel\([^;]*;", "after", "let ghost vx_roomy = tr.chan_cap >= max_attempts;", 1),
             ("sub", "R16-local-type", r"let mut primary_error: Option<S::Error> = None;", "let mut primary_error: Option<E> = None;", 1),
@@ -26,13 +27,13 @@ UNIT = dict(
             ("sub", "expect", r"\.expect\(\"[^\"]*\"\)", ".unwrap()", 1),
             ("sub", "R6-drop", r"\bdrop\(tx\);", "vx_drop_tx(tx, Tracked(tr));", 1),
             ("R3",), ("R5",),
-            ("addarg", ["call"], TR, 3),
+            ("addarg", ["call"], TR, 3),   # call + 2 x oneshot
             ("R10e", None),
             ("sub", "literal-types", r"let mut hedges_spawned: usize = 0;", "let mut hedges_spawned: usize = 0;", 1),
             ("loops", {
                 0: """invariant
                         tr.tx_alive && tr.unguarded == 0 && max_attempts == config.max_hedged_attempts && max_attempts > 1,
-                        tr.spawned == hedges_spawned + 1 && tr.calls == tr.spawned && tr.done == tr.spawned && tr.reqs.len() == tr.calls,   // #one_inner_call_per_started_attempt [C12]
+                        tr.spawned == hedges_spawned + 1 && 1 <= tr.calls <= tr.spawned && tr.done == tr.calls && tr.reqs.len() == tr.calls,   // #at_most_one_inner_call_per_started_attempt [C12]
                         hedges_spawned + 1 <= max_attempts,   // #never_starts_more_than_max_hedged_attempts [C12]
                         tr.recv_ok == 0,   // #keeps_waiting_only_while_no_attempt_has_succeeded [C12]
                         tr.queue.len() + tr.recv_err == tr.spawned,   // #every_started_attempt_reports_exactly_once [C12]
@@ -46,7 +47,7 @@ UNIT = dict(
                 1: """invariant
                         tr.tx_alive && tr.unguarded == 0 && max_attempts == config.max_hedged_attempts && max_attempts > 1,
                         1 <= i <= max_attempts && hedges_spawned + 1 == i,
-                        tr.spawned == hedges_spawned + 1 && tr.calls == tr.spawned && tr.done == tr.spawned && tr.reqs.len() == tr.calls,   // #one_inner_call_per_started_attempt [C12]
+                        tr.spawned == hedges_spawned + 1 && 1 <= tr.calls <= tr.spawned && tr.done == tr.calls && tr.reqs.len() == tr.calls,   // #at_most_one_inner_call_per_started_attempt [C12]
                         tr.recv_ok == 0 && tr.recv_err == 0 && tr.queue.len() == tr.spawned && tr.slept == 0,   // #parallel_mode_starts_all_attempts_at_once [C12]
                         forall|i: int| 0 <= i < tr.reqs.len() ==> tr.reqs[i] == req,   // #every_attempt_carries_the_request [C12,C20]
                         primary_error is None,
@@ -54,7 +55,7 @@ UNIT = dict(
                     """,
                 2: """invariant
                         !tr.tx_alive && tr.unguarded == 0,
-                        tr.spawned == hedges_spawned + 1 && tr.calls == tr.spawned && 1 <= tr.calls <= cap(config.max_hedged_attempts),
+                        tr.spawned == hedges_spawned + 1 && 1 <= tr.calls <= tr.spawned && tr.spawned <= cap(config.max_hedged_attempts),
                         tr.recv_ok == 0,   // #keeps_waiting_only_while_no_attempt_has_succeeded [C12]
                         tr.queue.len() + tr.recv_err == tr.spawned,   // #every_started_attempt_reports_exactly_once [C12]
                         tr.recv_err > 0 ==> primary_error is Some,
